@@ -17,6 +17,11 @@ Proof.
 Qed.
 
 Lemma panic_rk r : rk r (panic r). Proof. reflexivity. Qed.
+Lemma handle_log_query_rk r m : rk r (handle_log_query r m).
+Proof.
+  unfold handle_log_query. destruct (r_log_query r); [reflexivity|]. cbv zeta.
+  repeat match goal with |- context [if ?c then _ else _] => destruct c end; reflexivity.
+Qed.
 Lemma send_rk r m : rk r (send r m).
 Proof. unfold send. destruct (finalize_term _ _); reflexivity. Qed.
 Lemma set_peer_rk r k id p : rk r (set_peer r k id p).
@@ -309,7 +314,7 @@ Proof.
                    first [apply handle_heartbeat_message_rk|apply handle_replicate_message_rk|apply handle_install_snapshot_message_rk] ].
   all: try solve [ apply rk_promo; first [apply handle_follower_propose_rk | apply handle_follower_read_index_rk
                    | apply handle_follower_read_index_resp_rk | apply handle_node_request_vote_rk
-                   | apply handle_node_request_prevote_rk ] ].
+                   | apply handle_node_request_prevote_rk | apply handle_log_query_rk ] ].
   all: first
     [ (* local tick *)
       destruct (m_reject m); [left; reflexivity|];
